@@ -597,6 +597,13 @@ def expand_starstar_dicts(fn):
     for st in ast.walk(fn):
         if isinstance(st, ast.Assign) and len(st.targets) == 1 and isinstance(st.targets[0], ast.Name) and isinstance(st.value, ast.Dict):
             binds.setdefault(st.targets[0].id, []).append(st.value)
+        elif isinstance(st, (ast.Assign, ast.AnnAssign)) and isinstance(getattr(st, "value", None), ast.Call) and isinstance(st.value.func, ast.Name) and st.value.func.id == "dict" and not st.value.args and all(k.arg for k in st.value.keywords):
+            tgt_ = st.targets[0] if isinstance(st, ast.Assign) and len(st.targets) == 1 else (st.target if isinstance(st, ast.AnnAssign) else None)
+            if isinstance(tgt_, ast.Name):
+                # name = dict(k=v, ...)  is  name = {'k': v, ...}
+                binds.setdefault(tgt_.id, []).append(ast.Dict(keys=[ast.Constant(value=k.arg) for k in st.value.keywords], values=[k.value for k in st.value.keywords]))
+        elif isinstance(st, ast.AnnAssign) and isinstance(st.target, ast.Name) and isinstance(st.value, ast.Dict):
+            binds.setdefault(st.target.id, []).append(st.value)
         if isinstance(st, ast.Subscript) and isinstance(st.ctx, (ast.Store, ast.Del)) and isinstance(st.value, ast.Name):
             muts.add(st.value.id)
         if isinstance(st, ast.Call) and isinstance(st.func, ast.Attribute) and st.func.attr in ("update", "pop", "setdefault", "clear") and isinstance(st.func.value, ast.Name):
